@@ -141,3 +141,39 @@ package reghttp
 //@   name Request.Header/reghttp
 //@   in ~/internal/reghttp
 //@   requires fresh-clone-per-attempt: v == $hdrClone && v != caller.req.Headers
+
+// ---- C11: secrets never appear in log output ----
+// The transport wrapper logs every request (at debug level when the round trip failed, at trace
+// level otherwise). The only request header map it ever hands to the logger is its own copy of the
+// request's headers, made in this call, in which Authorization - if present - was replaced by
+// "[censored]"; this holds on the error branch as well as on the success branch.
+//@ ghost $logHdr http.Header
+//@ ghost $authChecked bool
+//@ ghost $authSeen bool
+//@ ghost $authMasked bool
+//@ func (*wrapTransport).RoundTrip(req) (resp, err)
+//@   prop C11
+//@   entry-assume !$authChecked && !$authSeen && !$authMasked
+//@   on-call Clone: $logHdr = result
+//@   on-call Get: $authChecked = true
+//@   on-call Get: $authSeen = (result != "")
+//@   on-call Set: $authMasked = true
+//@ callsite (net/http.Header).Get(key)
+//@   prop C11
+//@   name Header.Get/RoundTrip
+//@   in ~/internal/reghttp
+//@   infunc wrapTransport\)\.RoundTrip$
+//@   requires asks-the-copy-about-authorization: recv == $logHdr && key == "Authorization"
+//@ callsite (net/http.Header).Set(key, value)
+//@   prop C11
+//@   name Header.Set/RoundTrip
+//@   in ~/internal/reghttp
+//@   infunc wrapTransport\)\.RoundTrip$
+//@   requires masks-authorization-in-the-copy: recv == $logHdr && key == "Authorization" && value == "[censored]"
+//@ callsite log/slog.Any(key, value)
+//@   prop C11
+//@   name slog.Any/RoundTrip
+//@   in ~/internal/reghttp
+//@   infunc wrapTransport\)\.RoundTrip$
+//@   where not-the-response-headers: key != "resp-headers"
+//@   requires only-the-censored-copy-is-logged: $unbox(value, http.Header) == $logHdr && $authChecked && ($authSeen ==> $authMasked)
